@@ -634,15 +634,59 @@ def d_invreliability(ctx, inputs, paths, ref, opt):
         ctx.require(same_points(exp, list(zip(main[0][0], main[0][1]))), "invreliability:curve", input=ai.name, expected=exp, actual=list(zip(main[0][0].tolist(), main[0][1].tolist())))
 
 
+def great_circle_m(lat1, lon1, lat2, lon2, radius=6.371e6):
+    """haversine distance (an independent formula for the same sphere)"""
+    if lat1 == lat2 and lon1 == lon2:
+        return 0.0
+    p1, p2 = math.radians(lat1), math.radians(lat2)
+    dp, dl = p2 - p1, math.radians(lon2 - lon1)
+    a = math.sin(dp / 2) ** 2 + math.cos(p1) * math.cos(p2) * math.sin(dl / 2) ** 2
+    return 2 * radius * math.asin(min(1.0, math.sqrt(a)))
+
+
+def sample_cov(xs, ys):
+    n = len(xs)
+    mx, my = MD._mean(xs), MD._mean(ys)
+    return math.fsum((a - mx) * (b - my) for a, b in zip(xs, ys)) / (n - 1)
+
+
 def d_autocorr(ctx, inputs, paths, ref, opt):
-    axis = opt
-    r, fig, out = render(paths + ["-m", "autocorr", "-x", axis])
+    metric, axis = opt if isinstance(opt, tuple) else ("autocorr", opt)
+    r, fig, out = render(paths + ["-m", metric, "-x", axis])
     if r.kind != "ok":
-        return ctx.fail("autocorr:%s:%s" % (r.kind, r.site or "rejected"))
+        return ctx.fail("%s:%s:%s" % (metric, r.kind, r.site or "rejected"))
     lbl = lines_by_label(fig)
-    coords = ref.L if axis == "leadtime" else ref.T
+    if axis == "leadtime":
+        coords = list(ref.L)
+    elif axis == "time":
+        coords = list(ref.T)
+    else:
+        coords = list(range(len(ref.S)))
+    meta = ref.locmeta
+
+    def dist(a, b):
+        if axis == "leadtime":
+            return abs(a - b)
+        if axis == "time":
+            return abs(a - b) / 3600.0
+        if axis == "location":
+            return great_circle_m(meta[a][1], meta[a][2], meta[b][1], meta[b][2]) / 1000.0
+        return abs(meta[a][{"lat": 1, "lon": 2, "elev": 3}[axis]] - meta[b][{"lat": 1, "lon": 2, "elev": 3}[axis]])
+
+    def case(u, a):
+        if axis == "leadtime":
+            return (u[0], a, u[1])
+        if axis == "time":
+            return (a, u[0], u[1])
+        return (u[0], u[1], ref.S[a])
+    if axis == "leadtime":
+        others = [(t, s2) for t in ref.T for s2 in ref.S]
+    elif axis == "time":
+        others = [(l, s2) for l in ref.L for s2 in ref.S]
+    else:
+        others = [(t, l) for t in ref.T for l in ref.L]
     for i, ai in enumerate(inputs):
-        ls = one_line(ctx, lbl, ai.name, "autocorr")
+        ls = one_line(ctx, lbl, ai.name, metric)
         if not ls:
             continue
         allv = ref.request_all(["obs", "fcst"], i)
@@ -650,17 +694,19 @@ def d_autocorr(ctx, inputs, paths, ref, opt):
         for a in coords:
             for b in coords:
                 xs, ys = [], []
-                others = [(t, s2) for t in ref.T for s2 in ref.S] if axis == "leadtime" else [(l, s2) for l in ref.L for s2 in ref.S]
-                for (u, s2) in others:
-                    ca = (u, a, s2) if axis == "leadtime" else (a, u, s2)
-                    cb = (u, b, s2) if axis == "leadtime" else (b, u, s2)
+                for u in others:
+                    ca, cb = case(u, a), case(u, b)
                     if allv[ca] is not None and allv[cb] is not None:
                         xs.append(allv[ca][0] - allv[ca][1])
                         ys.append(allv[cb][0] - allv[cb][1])
-                d = abs(a - b) if axis == "leadtime" else abs(a - b) / 3600.0
-                c = MD.pearson(xs, ys) if len(xs) >= 2 else None
-                exp.append((d, float("nan") if c is None else c))
-        ctx.require(same_points(exp, list(zip(ls[0][0], ls[0][1])), tol=1e-6), "autocorr:points", input=ai.name, axis=axis, expected=exp[:4],
+                if len(xs) < 2:
+                    c = None
+                elif metric == "autocorr":
+                    c = MD.pearson(xs, ys)
+                else:
+                    c = sample_cov(xs, ys)
+                exp.append((dist(a, b), float("nan") if c is None else c))
+        ctx.require(same_points(exp, list(zip(ls[0][0], ls[0][1])), tol=1e-6), "%s:points" % metric, input=ai.name, axis=axis, expected=exp[:4],
                     actual=list(zip(ls[0][0].tolist(), ls[0][1].tolist()))[:4])
 
 
@@ -773,6 +819,228 @@ def d_rank(ctx, inputs, paths, ref, opt):
         ctx.require(all(abs(a - b) < 1e-9 for a, b in zip(e, got)), "rank:fractions", label=label, metric=metric, axis=axis, expected=e, actual=got)
 
 
+def _event(x, thr, bin_type):
+    return {"above": x > thr, "above=": x >= thr, "below": x < thr, "below=": x <= thr}[bin_type]
+
+
+def _nanmean(xs):
+    xs = [x for x in xs if x is not None]
+    return MD._mean(xs) if xs else None
+
+
+def fss_locs(seed):
+    """six stations on a meridian at 0, 1.1, 3.3, 11, 55 and 333 km from the first: neighbourhood sizes change with the scale"""
+    base = 100 + (seed % 5) * 10
+    return [(base + 7 * i, 60.0 + d, 10.0, 100.0 + 10 * i) for i, d in enumerate((0.0, 0.01, 0.03, 0.1, 0.5, 3.0))]
+
+
+def d_fss(ctx, inputs, paths, ref, opt):
+    axis, thr, bin_type = opt
+    if axis == "location":
+        # own dataset: the shared one has too few stations for any neighbourhood to qualify
+        locs = fss_locs(core.seed())
+        new = []
+        for k, ai in enumerate(inputs):
+            miss = [(f, pos) for f in ai.fields for pos in ai.positions() if pos not in ai.fields[f]] if False else []
+            new.append(datasets.full_input(ai.name, ai.times, ai.leads, locs, k=k, seed=core.seed(),
+                                           missing=([("fcst", (0, 1, 1)), ("obs", (2, 0, 4))] if k == 0 and len(inputs[0].fields["fcst"]) < len(inputs[0].positions()) else [])))
+        inputs = new
+        paths = write(inputs, "c16-fss-%d-%d" % (len(inputs), len(inputs[0].fields["fcst"])))
+        ref = RD.RefData(inputs)
+    r, fig, out = render(paths + ["-m", "fss", "-x", axis, "-r", gen.fmt_num(thr), "-b", bin_type])
+    if r.kind != "ok":
+        return ctx.fail("fss:%s:%s" % (r.kind, r.site or "rejected"))
+    lbl = lines_by_label(fig)
+    for i, ai in enumerate(inputs):
+        ls = one_line(ctx, lbl, ai.name, "fss")
+        if not ls:
+            continue
+        allv = ref.request_all(["obs", "fcst"], i)
+        ev = {c: (None if v is None else (float(_event(v[0], thr, bin_type)), float(_event(v[1], thr, bin_type)))) for c, v in allv.items()}
+        exp = []
+        if axis == "leadtime":
+            L = list(ref.L)
+            scales = sorted(set(abs(a - b) for a in L for b in L))
+            for sc in scales:
+                if sc == 0:
+                    exp.append((sc, float("nan")))
+                    continue
+                sq, fo_all = [], []
+                for a in range(len(L)):
+                    for b in range(len(L)):
+                        if L[b] - L[a] != sc:
+                            continue
+                        for t in ref.T:
+                            for s2 in ref.S:
+                                win = [ev[(t, L[m], s2)] for m in range(a, b + 1)]
+                                fo = _nanmean([None if w is None else w[0] for w in win])
+                                ff = _nanmean([None if w is None else w[1] for w in win])
+                                if fo is not None:
+                                    fo_all.append(fo)
+                                    sq.append((fo - ff) ** 2)
+                exp.append((sc, _bss(sq, fo_all)))
+        else:
+            meta = ref.locmeta
+            n = len(meta)
+            for sc in (2, 4, 8, 16, 32, 64, 128, 256, 512, 1024):
+                bs_l, mo_l = [], []
+                for l in range(n):
+                    nb = [m for m in range(n) if great_circle_m(meta[l][1], meta[l][2], meta[m][1], meta[m][2]) < sc * 1000.0]
+                    if len(nb) <= 3:
+                        continue
+                    sq, fos = [], []
+                    for t in ref.T:
+                        for ld in ref.L:
+                            cells = [ev[(t, ld, ref.S[m])] for m in nb]
+                            fo = _nanmean([None if w is None else w[0] for w in cells])
+                            ff = _nanmean([None if w is None else w[1] for w in cells])
+                            if fo is not None:
+                                fos.append(fo)
+                                sq.append((fo - ff) ** 2)
+                    if sq:
+                        bs_l.append(MD._mean(sq))
+                        mo_l.append(MD._mean(fos))
+                if not mo_l:
+                    exp.append((sc, float("nan")))
+                    continue
+                mo = MD._mean(mo_l)
+                unc = mo * (1 - mo)
+                exp.append((sc, (unc - MD._mean(bs_l)) / unc if unc > 0 else float("nan")))
+            if any(not math.isnan(y) for x, y in exp) and any(math.isnan(y) for x, y in exp):
+                ctx.flag("fss-scales")
+        ctx.require(same_points(exp, list(zip(ls[0][0], ls[0][1])), tol=1e-5), "fss:points", input=ai.name, axis=axis, bin=bin_type, expected=exp,
+                    actual=list(zip(ls[0][0].tolist(), ls[0][1].tolist())))
+
+
+def _bss(sq, fo_all):
+    if not sq:
+        return float("nan")
+    mo = MD._mean(fo_all)
+    unc = mo * (1 - mo)
+    return (unc - MD._mean(sq)) / unc if unc > 0 else float("nan")
+
+
+def d_meteo(ctx, inputs, paths, ref, opt):
+    qsel = opt
+    argv = paths + ["-m", "meteo"] + (["-q", ",".join(gen.fmt_num(q) for q in qsel)] if qsel else [])
+    r, fig, out = render(argv)
+    if len(inputs) != 1:
+        # a meteogram is for one input: anything else is refused
+        ctx.require(r.kind == "exit" and r.code not in (0, None), "meteo:several-inputs-not-refused", kind=r.kind)
+        return
+    if r.kind != "ok":
+        return ctx.fail("meteo:%s:%s" % (r.kind, r.site or "rejected"))
+    import verif.util
+    lbl = lines_by_label(fig)
+    xs = [verif.util.unixtime_to_datenum(ref.T[0] + l * 3600) for l in ref.L]
+    ctx.require(abs(xs[1] - xs[0] - (ref.L[1] - ref.L[0]) / 24.0) < 1e-9, "meteo:harness-datenum")
+
+    def series(role):
+        allv = ref.request_all([role], 0)
+        mom, pooled = [], []
+        for l in ref.L:
+            per_loc = []
+            flat = []
+            for s2 in ref.S:
+                v = [allv[(t, l, s2)][0] for t in ref.T if allv[(t, l, s2)] is not None]
+                flat += v
+                if v:
+                    per_loc.append(MD._mean(v))
+            mom.append(MD._mean(per_loc) if per_loc else float("nan"))
+            pooled.append(MD._mean(flat) if flat else float("nan"))
+        return mom, pooled
+    want = [("Observed", "obs"), ("Forecast", "fcst")] + [("%g%%" % (q * 100), ("q", q)) for q in sorted(qsel or (0.1, 0.5, 0.9))]
+    for label, role in want:
+        ls = lbl.get(label)
+        if not ctx.require(ls is not None and len(ls) == 1, "meteo:series-missing", label=label, labels=sorted(lbl)[:10]):
+            continue
+        mom, pooled = series(role)
+        got = list(zip(ls[0][0].tolist(), ls[0][1].tolist()))
+        # 'the average' over times and locations: the mean of the per-location time means (what is drawn) or the pooled mean
+        ok = same_points(list(zip(xs, mom)), got, tol=1e-6) or same_points(list(zip(xs, pooled)), got, tol=1e-6)
+        ctx.require(ok, "meteo:%s" % (role if isinstance(role, str) else "quantile"), label=label, expected=list(zip(xs, mom)), actual=got)
+    extra = [k for k in lbl if k.endswith("%") and k not in [w[0] for w in want]]
+    ctx.require(not extra, "meteo:quantile-lines-not-selected-by--q", extra=extra)
+
+
+def scatter_by_label(fig):
+    import matplotlib.collections
+    out = {}
+    for ax in fig.axes:
+        for c in ax.collections:
+            if isinstance(c, matplotlib.collections.PathCollection):
+                out.setdefault(str(c.get_label()), []).append((np.asarray(c.get_offsets(), dtype=float).reshape(-1, 2), np.asarray(c.get_sizes(), dtype=float).reshape(-1)))
+    return out
+
+
+def _check_impact(ctx, tag, fig, names, contrib, worse="worse"):
+    """contrib: {(x, y): value}; red series = first input worse (positive), blue = second input worse; areas proportional to |value|"""
+    sc = scatter_by_label(fig)
+    big = max([abs(v) for v in contrib.values()] + [0.0])
+    for label, sign in (("%s is %s" % (names[0], worse), 1), ("%s is %s" % (names[1], worse), -1)):
+        exp = sorted((k[0], k[1], abs(v) / big * 400.0) for k, v in contrib.items() if v * sign > 0)
+        got_l = sc.get(label)
+        if big == 0:
+            continue
+        if not ctx.require(got_l is not None and len(got_l) == 1, "%s:series-missing" % tag, label=label, labels=sorted(sc)):
+            continue
+        off, sizes = got_l[0]
+        got = sorted((float(a), float(b), float(z)) for (a, b), z in zip(off, sizes)) if len(sizes) == len(off) else None
+        ok = got is not None and len(got) == len(exp) and all(abs(e[0] - g[0]) < 1e-6 and abs(e[1] - g[1]) < 1e-6 and abs(e[2] - g[2]) < 1e-6 * 400 for e, g in zip(exp, got))
+        ctx.require(ok, "%s:points" % tag, label=label, expected=exp[:6], actual=(got or [])[:6])
+
+
+def d_impact(ctx, inputs, paths, ref, opt):
+    lo, step, hi = opt
+    r, fig, out = render(paths + ["-m", "mae", "-type", "impact", "-r", "%s:%s:%s" % (gen.fmt_num(lo), gen.fmt_num(step), gen.fmt_num(hi))])
+    if len(inputs) != 2:
+        ctx.require(r.kind == "exit" and r.code not in (0, None), "impact:needs-exactly-two-inputs", kind=r.kind)
+        return
+    if r.kind != "ok":
+        return ctx.fail("impact:%s:%s" % (r.kind, r.site or "rejected"))
+    edges = []
+    v = lo
+    while v <= hi + 1e-9:
+        edges.append(v)
+        v += step
+    a0, a1 = ref.request_all(["obs", "fcst"], 0), ref.request_all(["obs", "fcst"], 1)
+    contrib = {}
+    nin = 0
+    for c in ref.cases():
+        if a0[c] is None or a1[c] is None:
+            continue
+        o, x, y = a0[c][0], a0[c][1], a1[c][1]
+        bx = [j for j in range(len(edges) - 1) if edges[j] < x <= edges[j + 1]]
+        by = [j for j in range(len(edges) - 1) if edges[j] < y <= edges[j + 1]]
+        if bx and by:
+            nin += 1
+            key = ((edges[bx[0]] + edges[bx[0] + 1]) / 2.0, (edges[by[0]] + edges[by[0] + 1]) / 2.0)
+            contrib[key] = contrib.get(key, 0.0) + (x - o) ** 2 - (y - o) ** 2
+    if nin:
+        ctx.flag("impact")
+    _check_impact(ctx, "impact", fig, [ai.name for ai in inputs], contrib)
+
+
+def d_mapimpact(ctx, inputs, paths, ref, opt):
+    metric = opt
+    r, fig, out = render(paths + ["-m", metric, "-type", "mapimpact"])
+    if len(inputs) != 2:
+        ctx.require(r.kind == "exit" and r.code not in (0, None), "mapimpact:needs-exactly-two-inputs", kind=r.kind)
+        return
+    if r.kind != "ok":
+        return ctx.fail("mapimpact:%s:%s" % (r.kind, r.site or "rejected"))
+    contrib = {}
+    for k, m in enumerate(ref.locmeta):
+        s0, s1 = RS.score(ref, metric, 0, "location", k), RS.score(ref, metric, 1, "location", k)
+        if s0 is None or s1 is None or math.isnan(s0) or math.isnan(s1):
+            continue
+        d = s0 - s1
+        if metric == "corr":         # positively oriented: the input with the lower score is the worse one
+            d = -d
+        contrib[(m[2], m[1])] = d
+    _check_impact(ctx, "mapimpact", fig, [ai.name for ai in inputs], contrib)
+
+
 DIAGRAMS = {
     "standard": (d_standard, [("mae", "leadtime"), ("mae", "location"), ("corr", "time"), ("ets", "leadtime"), ("bs", "leadtime"), ("rmse", "no"), ("bias", "month"), ("mae", "leadtimeday")]),
     "obsfcst": (d_obsfcst, ["leadtime", "time", "location", ("leadtime", (0.1, 0.9)), ("location", (0.9, 0.5, 0.1))]),
@@ -794,7 +1062,11 @@ DIAGRAMS = {
     "against": (d_against, [None]),
     "droc": (d_droc, [("droc", 2.0), ("droc0", 2.0), ("droc", 1.0)]),
     "invreliability": (d_invreliability, [0.5, 0.1]),
-    "autocorr": (d_autocorr, ["leadtime", "time"]),
+    "autocorr": (d_autocorr, [("autocorr", "leadtime"), ("autocorr", "time"), ("autocorr", "location"), ("autocov", "leadtime"), ("autocov", "elev"), ("autocov", "lat"), ("autocorr", "lon")]),
+    "fss": (d_fss, [("leadtime", 2.0, "above"), ("location", 2.0, "above"), ("location", 1.0, "below=")]),
+    "meteo": (d_meteo, [None, (0.9, 0.1)]),
+    "impact": (d_impact, [(-4.1, 2.0, 7.9), (-0.1, 1.0, 5.9)]),
+    "mapimpact": (d_mapimpact, ["mae", "corr"]),
     "igncontrib": (d_igncontrib, [(2.0, "above"), (1.0, "below")]),
     "economicvalue": (d_economicvalue, [(2.0, "above"), (1.0, "below")]),
     "rank": (d_rank, [("mae", "leadtime"), ("mae", "time"), ("corr", "location"), ("bias", "time")]),
@@ -824,7 +1096,7 @@ def run(tier, only=None):
     st = explore.explore(harness, mode="full", params={"diagrams": diagrams}, repo_root=core.REPO, time_cap=(400 if tier == "quick" else 3000))
     return [core.Sub.from_e1("figures", st, bound="full product: %d diagram families x their option menus x {1,2,3} inputs x {partly missing, complete} dataset" % len(diagrams),
                              rule="one execution = one figure rendered by the driver; main series (by legend label) compared with reference statistics; non-trivial = more than one input",
-                             required_flags=("inset",) if "reliability" in diagrams else (), wall=time.time() - t0)]
+                             required_flags=tuple(f for d, f in (("reliability", "inset"), ("fss", "fss-scales"), ("impact", "impact")) if d in diagrams), wall=time.time() - t0)]
 
 
 def replay(rec):
